@@ -173,3 +173,61 @@ package hash
 //@   assert @Intn#0 {C14,C12} pick-from-nonempty: len(hash) > 0
 //@   ensures {C13,C14} pure: hpure(params)
 //@   ensures {C13,C14} content: hcontent(params)
+
+// The remaining readers: arity, absent key, wrong type, success on a hash, and purity (the reply's element list is not specified:
+// it is built by string concatenation in a loop over a Go map, in map order).
+
+//@ func handleHSTRLEN props C14,C12,C13
+//@   requires generic.henv(params)
+//@   assumes own-cmd: len(params.Command) >= 2 ==> disjointarr(params.Command, $srv.keysWithExpiry.keys[dbof(params.Context)])
+//@   assumes stored-wf: len(params.Command) >= 2 && ishash(hval(params, hkey(params))) ==> !fresh(ashash(hval(params, hkey(params))))
+//@   ensures {C14} arity: len(params.Command) < 3 ==> result1 != nil
+//@   ensures {C14} absent: len(params.Command) >= 3 && !old(hlive(params, hkey(params))) ==> result1 == nil && bstr(result0) == "$-1\r\n"
+//@   ensures {C14} wrongtype: len(params.Command) >= 3 && old(hlive(params, hkey(params))) && !old(ishash(hval(params, hkey(params)))) ==> result1 != nil
+//@   ensures {C14} answers: len(params.Command) >= 3 && onhash(params) ==> result1 == nil
+//@   ensures {C13,C14} pure: hpure(params)
+//@   ensures {C13,C14} content: hcontent(params)
+
+//@ func handleHMGET props C14,C12,C13
+//@   requires generic.henv(params)
+//@   assumes own-cmd: len(params.Command) >= 2 ==> disjointarr(params.Command, $srv.keysWithExpiry.keys[dbof(params.Context)])
+//@   assumes stored-wf: len(params.Command) >= 2 && ishash(hval(params, hkey(params))) ==> !fresh(ashash(hval(params, hkey(params))))
+//@   ensures {C14} arity: len(params.Command) < 3 ==> result1 != nil
+//@   ensures {C14} absent: len(params.Command) >= 3 && !old(hlive(params, hkey(params))) ==> result1 == nil && bstr(result0) == "$-1\r\n"
+//@   ensures {C14} wrongtype: len(params.Command) >= 3 && old(hlive(params, hkey(params))) && !old(ishash(hval(params, hkey(params)))) ==> result1 != nil
+//@   ensures {C14} answers: len(params.Command) >= 3 && onhash(params) ==> result1 == nil
+//@   ensures {C13,C14} pure: hpure(params)
+//@   ensures {C13,C14} content: hcontent(params)
+
+//@ func handleHVALS props C14,C12,C13
+//@   requires generic.henv(params)
+//@   assumes own-cmd: len(params.Command) >= 2 ==> disjointarr(params.Command, $srv.keysWithExpiry.keys[dbof(params.Context)])
+//@   assumes stored-wf: len(params.Command) >= 2 && ishash(hval(params, hkey(params))) ==> !fresh(ashash(hval(params, hkey(params))))
+//@   ensures {C14} arity: len(params.Command) != 2 ==> result1 != nil
+//@   ensures {C14} absent: len(params.Command) == 2 && !old(hlive(params, hkey(params))) ==> result1 == nil && bstr(result0) == "*0\r\n"
+//@   ensures {C14} wrongtype: len(params.Command) == 2 && old(hlive(params, hkey(params))) && !old(ishash(hval(params, hkey(params)))) ==> result1 != nil
+//@   ensures {C14} answers: len(params.Command) == 2 && onhash(params) ==> result1 == nil
+//@   ensures {C13,C14} pure: hpure(params)
+//@   ensures {C13,C14} content: hcontent(params)
+
+//@ func handleHKEYS props C14,C12,C13
+//@   requires generic.henv(params)
+//@   assumes own-cmd: len(params.Command) >= 2 ==> disjointarr(params.Command, $srv.keysWithExpiry.keys[dbof(params.Context)])
+//@   assumes stored-wf: len(params.Command) >= 2 && ishash(hval(params, hkey(params))) ==> !fresh(ashash(hval(params, hkey(params))))
+//@   ensures {C14} arity: len(params.Command) != 2 ==> result1 != nil
+//@   ensures {C14} absent: len(params.Command) == 2 && !old(hlive(params, hkey(params))) ==> result1 == nil && bstr(result0) == "*0\r\n"
+//@   ensures {C14} wrongtype: len(params.Command) == 2 && old(hlive(params, hkey(params))) && !old(ishash(hval(params, hkey(params)))) ==> result1 != nil
+//@   ensures {C14} answers: len(params.Command) == 2 && onhash(params) ==> result1 == nil
+//@   ensures {C13,C14} pure: hpure(params)
+//@   ensures {C13,C14} content: hcontent(params)
+
+//@ func handleHGETALL props C14,C12,C13
+//@   requires generic.henv(params)
+//@   assumes own-cmd: len(params.Command) >= 2 ==> disjointarr(params.Command, $srv.keysWithExpiry.keys[dbof(params.Context)])
+//@   assumes stored-wf: len(params.Command) >= 2 && ishash(hval(params, hkey(params))) ==> !fresh(ashash(hval(params, hkey(params))))
+//@   ensures {C14} arity: len(params.Command) != 2 ==> result1 != nil
+//@   ensures {C14} absent: len(params.Command) == 2 && !old(hlive(params, hkey(params))) ==> result1 == nil && bstr(result0) == "*0\r\n"
+//@   ensures {C14} wrongtype: len(params.Command) == 2 && old(hlive(params, hkey(params))) && !old(ishash(hval(params, hkey(params)))) ==> result1 != nil
+//@   ensures {C14} answers: len(params.Command) == 2 && onhash(params) ==> result1 == nil
+//@   ensures {C13,C14} pure: hpure(params)
+//@   ensures {C13,C14} content: hcontent(params)
